@@ -4,10 +4,26 @@ import FranzVerif.Proof.CommitInv
 /-! C09 — offset commits take effect in the order issued. Theorems over ALL accepted histories of
 `Model.Commit`; the tie is the history correspondence of the `cmt` scenarios.
 
-All three statements hold as first written and the observables are unchanged: `lastApplied`'s scan pairs an
-answer with the newest request of that number and partition, exactly what the monitor's `s.wire.find?` does on
-its newest-first list (`Proof.Commit.lastApplied_go_run`); the existence of CO/GC events for every partition
-with a successful commit is what the `…-missing` rules of `quiesce` give. -/
+The observables: `lastApplied`'s scan pairs an answer with the newest request of that number and partition,
+exactly what the monitor's `s.wire.find?` does on its newest-first list (`Proof.Commit.lastApplied_go_run`); the
+existence of CO/GC events for every judged partition with a successful commit is what the `…-missing` /
+`…-unset-…` rules of `quiesce` give.
+
+Partitions are topic+number (`100 * topic + number`, `Model.Commit.topicOf`). One OffsetCommit answer carries
+one code per partition and the codes may differ (MIXED answer): `wireResp` is per partition, `lastApplied q`
+reads only the answers for `q`, so an error for one partition of an answer leaves every other partition of that
+answer held to its own last successful commit (`mixed_response_other_partitions_still_judged`,
+`requirement_of_a_partition_ignores_other_partitions`).
+
+Two kinds of partitions are exempt from the final-value clauses (never from the ordering clauses), and only
+they:
+* TAINTED partitions (`taintedAtEnd`): the fault layer rewrote the partition's successful answer into an error
+  code on the wire. The coordinator applied that commit and the client was told it failed, so "its value in the
+  last successful commit" has no single meaning for that partition (the coordinator's last success and the
+  client's last success differ by construction, and the property text's two sentences would demand both). The
+  exemption ends with the next answer for that partition that is a success for both sides.
+* partitions of a DELETED topic (`topicDeleted`): the partition does not exist any more, there is no committed
+  offset to report. -/
 namespace Props.C09
 open Model.Commit Proof.Commit
 
@@ -36,7 +52,10 @@ theorem only_issued_commits_arrive (h₁ h₂ : List Ev) (n part off : Nat)
 /-- After all commits finished, each partition's committed offset equals its value in the last successful
 commit, and CommittedOffsets reports the same value. -/
 theorem final_offsets_are_last_successful_commit (h : List Ev) (s : St) (hacc : run {} (h ++ [Ev.quiesce]) = some s)
-    (hcomplete : isIncomplete h = false) (p off : Nat) (hlast : lastApplied p h = some off) :
+    (hcomplete : isIncomplete h = false) (p off : Nat) (hlast : lastApplied p h = some off)
+    -- the partition is not tainted (see the header: for a tainted partition the coordinator's and the client's
+    -- "last successful commit" differ by construction of the fault) and its topic was not deleted
+    (hnt : taintedAtEnd p h = false) (hnd : topicDeleted (topicOf p) h = false) :
     (∀ k offs, Ev.issue k offs ∈ h → ∃ ok, Ev.finish k ok ∈ h) ∧
     (∃ g, Ev.groupCommitted p g ∈ h) ∧ (∀ g, Ev.groupCommitted p g ∈ h → g = (off : Int)) ∧
     (∃ c, Ev.clientCommitted p c ∈ h) ∧ (∀ c, Ev.clientCommitted p c ∈ h → c = (off : Int)) := by
@@ -45,26 +64,56 @@ theorem final_offsets_are_last_successful_commit (h : List Ev) (s : St) (hacc : 
   obtain ⟨q1, q2, q3, q4, q5⟩ := quiesce_check hchk (by rw [hi.incomplete]; exact hcomplete)
   have hcur : curOf s₁ p = some off := by rw [lastApplied_run hr₁]; exact hlast
   obtain ⟨happ, a, ha, hap⟩ := appliedOf_of_curOf hcur
+  have hj : judged s₁ p = true := judged_of hr₁ hnt hnd
+  have hja : judged s₁ a.1 = true := by rw [hap]; exact hj
   refine ⟨?_, ?_, ?_, ?_, ?_⟩
   · intro k offs hk
     obtain ⟨f, hf, hfk⟩ := q1 (k, offs) ((hi.issued (k, offs)).2 hk)
     refine ⟨f.2, ?_⟩
     have := (hi.finished f).1 hf
     rwa [hfk] at this
-  · obtain ⟨g, hg, hgp⟩ := q3 a ha
+  · obtain ⟨g, hg, hgp⟩ := q3 a ha hja
     refine ⟨g.2, ?_⟩
     have := (hi.gc g).1 hg
     rwa [hgp, hap] at this
   · intro g hg
-    have := q2 (p, g) ((hi.gc (p, g)).2 hg) ⟨a, ha, hap⟩
+    have := q2 (p, g) ((hi.gc (p, g)).2 hg) hj ⟨a, ha, hap⟩
     simpa only [happ] using this
-  · obtain ⟨g, hg, hgp⟩ := q5 a ha
+  · obtain ⟨g, hg, hgp⟩ := q5 a ha hja
     refine ⟨g.2, ?_⟩
     have := (hi.co g).1 hg
     rwa [hgp, hap] at this
   · intro g hg
-    have := q4 (p, g) ((hi.co (p, g)).2 hg) ⟨a, ha, hap⟩
+    have := q4 (p, g) ((hi.co (p, g)).2 hg) hj ⟨a, ha, hap⟩
     simpa only [happ] using this
+
+/-- What is required of a partition does not depend on what the other partitions were answered: an answer for
+partition `p` (any code) or a taint of `p` changes neither the last successful commit of another partition `q`
+nor whether `q` is judged. -/
+theorem requirement_of_a_partition_ignores_other_partitions (h₁ h₂ : List Ev) (e : Ev) (n p q : Nat) (err : Int)
+    (he : e = Ev.wireResp n p err ∨ e = Ev.taint p) (hpq : p ≠ q) :
+    lastApplied q (h₁ ++ e :: h₂) = lastApplied q (h₁ ++ h₂) ∧
+    taintedAtEnd q (h₁ ++ e :: h₂) = taintedAtEnd q (h₁ ++ h₂) := by
+  have ha : aboutOnly p e = true := by rcases he with rfl | rfl <;> simp [aboutOnly]
+  exact ⟨lastApplied_go_frame q p hpq e ha h₁ h₂ [] none, taintedAtEnd_go_frame q p hpq e ha h₁ h₂ false⟩
+
+/-- A per-partition error in an answer does not affect what is required of the other partitions of that answer.
+Take any accepted complete history containing an answer for partition `p` of request `n` (any code: a
+per-partition error, a rewritten code) or a taint of `p`. For every other partition `q` — in particular the
+other partitions of the same answer `n` — compute the requirement on the history WITHOUT that event (`off` is
+`q`'s last successful commit there, `q` is not tainted there): the full history must show exactly `off` as `q`'s
+group offset and as its CommittedOffsets value. -/
+theorem mixed_response_other_partitions_still_judged (h₁ h₂ : List Ev) (s : St) (e : Ev) (n p q off : Nat) (err : Int)
+    (he : e = Ev.wireResp n p err ∨ e = Ev.taint p) (hpq : p ≠ q)
+    (hacc : run {} ((h₁ ++ e :: h₂) ++ [Ev.quiesce]) = some s)
+    (hcomplete : isIncomplete (h₁ ++ e :: h₂) = false)
+    (hlast : lastApplied q (h₁ ++ h₂) = some off)
+    (hnt : taintedAtEnd q (h₁ ++ h₂) = false) (hnd : topicDeleted (topicOf q) (h₁ ++ e :: h₂) = false) :
+    (∃ g, Ev.groupCommitted q g ∈ h₁ ++ e :: h₂) ∧ (∀ g, Ev.groupCommitted q g ∈ h₁ ++ e :: h₂ → g = (off : Int)) ∧
+    (∃ c, Ev.clientCommitted q c ∈ h₁ ++ e :: h₂) ∧ (∀ c, Ev.clientCommitted q c ∈ h₁ ++ e :: h₂ → c = (off : Int)) := by
+  obtain ⟨f1, f2⟩ := requirement_of_a_partition_ignores_other_partitions h₁ h₂ e n p q err he hpq
+  exact (final_offsets_are_last_successful_commit (h₁ ++ e :: h₂) s hacc hcomplete q off
+    (by rw [f1]; exact hlast) (by rw [f2]; exact hnt) hnd).2
 
 /-- Non-vacuity: commits 1..3 over partitions 0 and 1. Commit 1 reaches the coordinator in request 1 and is
 answered; commit 2 (request 2) is answered with a retriable error (15) and retried in request 3; commit 3 is
@@ -97,6 +146,67 @@ example : lastApplied 1
      .finish 2 true,
      .wireReq 4 0 1003, .wireReq 4 1 1003, .wireResp 4 0 0, .wireResp 4 1 0, .finish 3 true] = some 1003 := by decide
 
+/-- Non-vacuity with MIXED answers, two topics (partition 100 is partition 0 of the second topic), a deleted topic
+and a rewritten answer. Commit 1 names all three partitions and is applied. The second topic is deleted. Commit 2's
+answer (request 2) is mixed: UNKNOWN_TOPIC_ID (100) for partition 100, success for 0 and 1. Commit 3's answer
+(request 3) is rewritten on the wire: partition 0 is shown OFFSET_METADATA_TOO_LARGE (12) although the
+coordinator applied it (`taint 0`), partition 1 is a success. At the end partition 1 must be at commit 3's value
+in both views; partition 0 is tainted (the group has 1003, the client 1002); partition 100 is gone. -/
+example : accepts
+    [.issue 1 [(0, 1001), (1, 1001), (100, 1001)], .wireReq 1 100 1001, .wireReq 1 0 1001, .wireReq 1 1 1001,
+     .wireResp 1 100 0, .wireResp 1 0 0, .wireResp 1 1 0, .finish 1 true,
+     .topicDeleted 1,
+     .issue 2 [(0, 1002), (1, 1002), (100, 1002)], .wireReq 2 0 1002, .wireReq 2 1 1002, .wireReq 2 100 1002,
+     .wireResp 2 0 0, .wireResp 2 1 0, .wireResp 2 100 100, .finish 2 false,
+     .issue 3 [(0, 1003), (1, 1003)], .wireReq 3 1 1003, .wireReq 3 0 1003,
+     .taint 0, .wireResp 3 1 0, .wireResp 3 0 12, .finish 3 false,
+     .clientCommitted 0 1002, .clientCommitted 1 1003, .clientCommitted 100 1001,
+     .groupCommitted 0 1003, .groupCommitted 1 1003,
+     .quiesce] = true := by decide
+
+/-- The same history with partition 1 — an untainted partition of the rewritten answer — left at commit 2's value
+in CommittedOffsets (what a client shows that stops processing an answer at its first per-partition error,
+partition 0 sorting before partition 1): refused. -/
+example : accepts
+    [.issue 1 [(0, 1001), (1, 1001), (100, 1001)], .wireReq 1 100 1001, .wireReq 1 0 1001, .wireReq 1 1 1001,
+     .wireResp 1 100 0, .wireResp 1 0 0, .wireResp 1 1 0, .finish 1 true,
+     .topicDeleted 1,
+     .issue 2 [(0, 1002), (1, 1002), (100, 1002)], .wireReq 2 0 1002, .wireReq 2 1 1002, .wireReq 2 100 1002,
+     .wireResp 2 0 0, .wireResp 2 1 0, .wireResp 2 100 100, .finish 2 false,
+     .issue 3 [(0, 1003), (1, 1003)], .wireReq 3 1 1003, .wireReq 3 0 1003,
+     .taint 0, .wireResp 3 1 0, .wireResp 3 0 12, .finish 3 false,
+     .clientCommitted 0 1002, .clientCommitted 1 1002, .clientCommitted 100 1001,
+     .groupCommitted 0 1003, .groupCommitted 1 1003,
+     .quiesce] = false := by decide
+
+/-- A mixed answer without any rewriting (partition 100 of a deleted topic refused, partition 0 applied in the same
+answer) and partition 0 left at the previous commit's value in CommittedOffsets: refused. -/
+example : accepts
+    [.issue 1 [(0, 1001), (100, 1001)], .wireReq 1 100 1001, .wireReq 1 0 1001, .wireResp 1 100 0, .wireResp 1 0 0, .finish 1 true,
+     .topicDeleted 1,
+     .issue 2 [(0, 1002), (100, 1002)], .wireReq 2 100 1002, .wireReq 2 0 1002, .wireResp 2 100 3, .wireResp 2 0 0, .finish 2 false,
+     .clientCommitted 0 1001, .groupCommitted 0 1002, .quiesce] = false := by decide
+
+/-- The hypotheses of `mixed_response_other_partitions_still_judged` on the first of these histories, with
+`e = wireResp 3 0 12` (partition 0's rewritten answer, p = 0) and q = 1: on the history without `e` partition 1's
+last successful commit is commit 3's and it is not tainted; partition 0 itself is tainted at the end; the taint
+ends with a later success (last line). -/
+example : lastApplied 1
+    ([.issue 1 [(0, 1001), (1, 1001), (100, 1001)], .wireReq 1 100 1001, .wireReq 1 0 1001, .wireReq 1 1 1001,
+     .wireResp 1 100 0, .wireResp 1 0 0, .wireResp 1 1 0, .finish 1 true,
+     .topicDeleted 1,
+     .issue 2 [(0, 1002), (1, 1002), (100, 1002)], .wireReq 2 0 1002, .wireReq 2 1 1002, .wireReq 2 100 1002,
+     .wireResp 2 0 0, .wireResp 2 1 0, .wireResp 2 100 100, .finish 2 false,
+     .issue 3 [(0, 1003), (1, 1003)], .wireReq 3 1 1003, .wireReq 3 0 1003,
+     .taint 0, .wireResp 3 1 0] ++
+     [.finish 3 false,
+     .clientCommitted 0 1002, .clientCommitted 1 1003, .clientCommitted 100 1001,
+     .groupCommitted 0 1003, .groupCommitted 1 1003]) = some 1003 := by decide
+example : taintedAtEnd 1 [.taint 0, .wireResp 3 1 0, .wireResp 3 0 12] = false := by decide
+example : taintedAtEnd 0 [.taint 0, .wireResp 3 1 0, .wireResp 3 0 12] = true := by decide
+example : topicDeleted (topicOf 1) [.topicDeleted 1, .taint 0] = false ∧ topicDeleted (topicOf 100) [.topicDeleted 1, .taint 0] = true := by decide
+example : taintedAtEnd 0 [.taint 0, .wireResp 3 0 12, .wireResp 4 0 0] = false := by decide
+
 /-- Partition 1's last commit (3) fails with a non-retriable error: its final offset is commit 2's, partition 0's
 is commit 3's. -/
 example : accepts
@@ -116,7 +226,8 @@ example : accepts [.issue 2 [(0, 1002)], .wireReq 1 0 1003] = false := by decide
 example : accepts [.issue 2 [(0, 1002)], .wireReq 1 1 1002] = false := by decide
 
 /-- A final group offset that is not the last successful commit (1002 instead of 1003): refused; so is a
-CommittedOffsets value that differs, a missing final value, and a commit that never finished. -/
+CommittedOffsets value that differs, a missing final value, and a commit that never finished; and a partition
+CommittedOffsets lists with the value 0 (unset) after a successful commit. -/
 example : accepts
     [.issue 2 [(0, 1002)], .wireReq 1 0 1002, .wireResp 1 0 0, .finish 2 true,
      .issue 3 [(0, 1003)], .wireReq 2 0 1003, .wireResp 2 0 0, .finish 3 true,
@@ -131,5 +242,9 @@ example : accepts
 example : accepts
     [.issue 3 [(0, 1003)], .wireReq 2 0 1003, .wireResp 2 0 0,
      .clientCommitted 0 1003, .groupCommitted 0 1003, .quiesce] = false := by decide
+
+example : accepts
+    [.issue 3 [(0, 1003)], .wireReq 2 0 1003, .wireResp 2 0 0, .finish 3 true,
+     .clientCommitted 0 0, .groupCommitted 0 1003, .quiesce] = false := by decide
 
 end Props.C09
